@@ -8,13 +8,54 @@ TRUST = ("Trusted base: the gocv VC generator (Go subset lowering, A4), z3 5.1.0
          "library models listed in the evidence file. ")
 
 CLAIMS = {
+ "C02": dict(
+   text="Deductive proof of panic-freedom and termination for the byte-level parsers under contract: every index/slice expression in bounds, every integer division by a non-zero divisor, every make size non-negative, every loop with a decreasing variant, mutual recursion with a lexicographic measure (bytes left, rank) — for every byte sequence. Covered: the whole content-stream parser (Parse, parseNext, parseOperator, parseOperand, parseNumber, parseString, parseHexString, parseName, parseArray, parseDict, skipWhitespace), format.DetectFromMagic/detectHTMLMagic, rag.findWordBoundaryNear/findSentenceEndNear/BatchExporter.Export, pages.(*PageTree).Count, reader.(*Reader).PageCount (non-negative count).",
+   note=TRUST + "PARTIAL: only the functions listed in the evidence are covered; the document-level parser (core), the container readers (zip/xml/html libraries), allocation size budgets and recursion DEPTH (stack use grows with nesting of [ and <<) are not covered.",
+   ref="5.2"),
  "C05": dict(
-   text="Deductive proof (own weakest-precondition VC generator over the typed Go AST of /repo, obligations discharged by SMT) that "
-        "the PNG predictor (any per-row filter mix, any Columns/Colors geometry, all rows) and the TIFF predictor 2 decode exactly the bytes "
-        "a conforming encoder started from, for every input length and geometry; Paeth against the PNG specification; unknown filter types, "
-        "unsupported bit depths and invalid geometry yield an error. Unbounded: loop invariants, no unrolling.",
-   note=TRUST + "Not covered: zlib inflate itself (trusted library), ASCII85/ASCIIHex loops and the filter-chain driver unless listed under functions_under_contract in the evidence.",
+   text="Deductive proof (own weakest-precondition VC generator over the typed Go AST of /repo, obligations discharged by SMT) that the PNG predictor (any per-row filter mix, any Columns/Colors geometry, all rows) and the TIFF predictor 2 decode exactly the bytes a conforming encoder started from, for every input length and geometry; Paeth against the PNG specification; unknown filter types, unsupported bit depths and invalid geometry yield an error. Unbounded: loop invariants, no unrolling.",
+   note=TRUST + "PARTIAL: zlib inflate is a trusted library; ASCIIHex/ASCII85 loops, getIntParam's type switch (uninterpreted dynamic-type tests) and the filter-chain driver (*Stream).Decode are not under contract.",
    ref="5.5"),
+ "C06": dict(
+   text="Proof, complete over all 256 byte values, that the three scanners (document parser, content-stream parser, filters) assign the same meaning to the lexical classes of ISO 32000 7.2: white-space, delimiters, hex digits and hex digit values all equal one spec function; plus the white-space skipping contract of the content-stream parser.",
+   note=TRUST + "PARTIAL: token-level values (literal strings, names, numbers) of the two parsers are not yet compared against one spec; operator/operand grouping is covered under C03.",
+   ref="5.6"),
+ "C08": dict(
+   text="Deductive proof over real arithmetic that the matrix algebra and every graphics-state operator under contract follow ISO 32000: Multiply/Transform against the row-vector semantics (stated semantically: image of every point), cm pre-multiplies the CTM, Td/TD/T* pre-multiply the line matrix and set Tm = Tlm, TD sets the leading, BT resets both matrices, Tm sets both, q pushes exactly what Q restores, Q restores exactly the saved CTM/text state/line width/colours and pops one entry (underflow = error, state unchanged), and the reported text position is the text-space origin through Tm then CTM (zero rise).",
+   note=TRUST + "PARTIAL: floating point treated as reals (A2); the operator dispatch in text.(*Extractor).processOperation, glyph advances and the effective font size are not under contract; induction over operator sequences is a meta-argument over the per-operator contracts.",
+   ref="5.8"),
+ "C10": dict(
+   text="Deductive proof that page selection is a set algebra: resolvePages returns 0..n-1 when nothing is selected; otherwise it fails iff some requested page is outside 1..n, and on success the result is strictly ascending, without duplicates, and contains exactly the requested pages (as a set) — for any order, duplicates or repeated chained selections; the page count used is proven non-negative.",
+   note=TRUST + "PARTIAL: sort.Ints is a trusted library contract (sorted, same value set, distinctness preserved); copy-on-configure, page stamping and handle release (typestate) are not yet under contract.",
+   ref="5.10"),
+ "C11": dict(
+   text="Deductive proof that header/footer filtering only deletes: the result is exactly the sub-sequence of kept fragments (same order, nothing invented or duplicated: position of every kept fragment = number of kept fragments before it), a fragment is dropped only if a region detected for this page exists such that it lies in the top/bottom band and (character-level page or text match); no regions or body-band position => never dropped; nil detector result or empty input => input returned unchanged.",
+   note=TRUST + "PARTIAL: region detection (which text repeats) is heuristic and not under contract, so the 'is removed from every page' direction is not decided; textsMatch is an uninterpreted deterministic predicate.",
+   ref="5.11"),
+ "C13": dict(
+   text="Deductive proof for the splitting kernels: split points lie in 0..len and, for valid UTF-8 input (exact RFC 3629 automaton as ghost state), always on a character boundary; backward search bounds (a break within 50 bytes before the target keeps the piece within target+1); SplitToSize terminates and returns non-empty, ordered, non-overlapping substrings of the input.",
+   note=TRUST + "PARTIAL: strings.TrimSpace is a trusted library contract; SplitToSize is stated without semantic boundaries (adjustBoundaryPositions ignores trimmed white space); forward overshoot (up to +50/+100 bytes past the maximum) is visible in the contract (ensures overshoot) and not claimed absent; overlap generation is not under contract.",
+   ref="5.13"),
+ "C14": dict(
+   text="Deductive proof that ChunkCollection.Filter returns exactly the chunks satisfying the predicate, in order (predicate uninterpreted; position of each kept chunk = number of kept chunks before it), and that BatchExporter.Export terminates, stays in bounds and rejects a non-positive batch size.",
+   note=TRUST + "PARTIAL: well-formedness and parse-back of JSON/CSV text are delegated to encoding/json and encoding/csv (trusted, not modelled); CSV column collection and the vector-database record writers are not under contract.",
+   ref="5.14"),
+ "C15": dict(
+   text="Deductive proof that (a) every ATX heading written by the DOCX/ODT readers, chunk rendering and layout.Heading has between 1 and 6 '#' (call-site contracts on strings.Repeat, verified from an arbitrary state of the enclosing blocks), (b) the cell-escaping functions produce text without line feeds in which every '|' is preceded by a backslash, and (c) every string written into a pipe table by the model/DOCX/ODT/XLSX table writers is a structural literal or such escaped text.",
+   note=TRUST + "PARTIAL: strings.ReplaceAll/TrimSpace are trusted library contracts; row arity, list structure, PPTX/HTML table writers (string concatenation) and body-text conservation are not under contract.",
+   ref="5.15"),
+ "C17": dict(
+   text="Deductive proof that ColumnToIndex computes bijective base-26 (case-insensitive, against a recursive spec function) for every ASCII letter string and rejects every string containing a non-letter, and that Sheet.Cell returns the addressed cell or nil outside the grid.",
+   note=TRUST + "PARTIAL: IndexToColumn/ParseCellRef round trip and the worksheet placement loops (parseWorksheet) are not yet under contract; strings.ToUpper is a trusted library contract (exact on ASCII).",
+   ref="5.17"),
+ "C19": dict(
+   text="Deductive proof of the exclusion lattice: shouldExclude equals a fixed monotone combination of three detector results that provably do not read the mode (frame analysis noread), mode None excludes nothing and each stricter mode excludes a superset (lemma exclude_monotone).",
+   note=TRUST + "PARTIAL: the DOM walk (x/net/html node pointers) is not modelled, so 'stricter modes yield a subsequence of the output' follows only together with the unproved fact that the walk skips exactly the excluded subtrees; the link-density memoisation cache is assumed coherent.",
+   ref="5.19"),
+ "C20": dict(
+   text="Deductive proof of the format decision kernels: extension table and its round trip for all seven formats, safe signature sniffing for every byte string, refusal when recognised content differs from the extension's format, and the DRM decision (rights file anywhere => refused; encrypted content iff some entry is not font obfuscation and covers a content document; font obfuscation = Adobe/IDPF obfuscation identifiers).",
+   note=TRUST + "PARTIAL: zip/xml parsing and the ZIP family detection loop are library/unmodelled; string predicates (Contains/HasSuffix/ToLower) are uninterpreted deterministic functions.",
+   ref="5.20"),
 }
 
 NA = {
